@@ -304,6 +304,34 @@ fn sweep(tier: &str, progress: &mut dyn FnMut(&str)) -> (serde_json::Map<String,
         }
     }
 
+    // --- successive invocations on ONE file: what the last one recorded is what the next one reads, also
+    //     when the table or the history shrinks (3 entries, then none, then 2, then none, then 1)
+    {
+        let sys = fresh_sys();
+        let names: Vec<String> = (0..3).map(|i| format!("out/f{}.o", i)).collect();
+        for (step, n) in [3usize, 0, 2, 0, 1].iter().enumerate()
+        {
+            evals += 1;
+            progress(&format!("successive tables in one file, step {} ({} entries)", step, n));
+            {
+                let mut c = match CurrentFileStates::from_file(sys.clone(), TABLE_FILE.to_string()) { Ok(c) => c, Err(e) => { bad.add("a table written by the previous invocation cannot be read", format!("step {}: {}", step, e)); break; } };
+                let _ = c.take_blob(names.clone());
+                for i in 0..*n { c.insert_file_state(names[i].clone(), FileState { ticket: ticket(step * 10 + i), timestamp: 5_000 + step as u64, executable: i == 1 }); }
+                if c.to_file().is_err() { bad.add("writing the table failed", format!("step {}", step)); break; }
+            }
+            match read_table(&sys.with(|i| i.fs.read(TABLE_FILE).map(|b| (*b).clone()).unwrap_or_default()), names.clone())
+            {
+                Ok(Ok(states)) =>
+                {
+                    let want: Vec<FileState> = (0..3).map(|i| if i < *n { FileState { ticket: ticket(step * 10 + i), timestamp: 5_000 + step as u64, executable: i == 1 } } else { FileState::empty() }).collect();
+                    if states != want { bad.add("the next invocation does not read what the last one recorded (one file, several invocations)", format!("step {} with {} entries: {:?}", step, n, states.iter().map(|s| s.timestamp).collect::<Vec<_>>())); }
+                },
+                Ok(Err(e)) => bad.add("a table just written cannot be read", format!("step {}: {}", step, e)),
+                Err(()) => bad.add("reading a table just written panics", format!("step {}", step)),
+            }
+        }
+    }
+
     // --- arbitrary bytes: every string of length <= 2, constant strings of length 0..64
     let mut arbitrary = 0u64;
     let mut tiny: Vec<Vec<u8>> = vec![vec![]];
